@@ -1769,6 +1769,7 @@ def classify_bool_expr(d):
             'internal::ChannelInternal::send_signal_exists': 'exists',
             'internal::ChannelInternal::recv_signal_exists': 'exists',
             'signal::Signal::will_wake': 'will_wake',
+            'std::task::Waker::will_wake': 'waker_same',
             'std::mem::needs_drop': 'needs_drop',
             'std::option::Option::is_none': 'opt_none',
             'std::option::Option::is_some': 'opt_some',
